@@ -124,20 +124,8 @@ func regexes(maxTok int, onlyAnchored bool) []string {
 	return out
 }
 
-func partA(maxTok int, anchoredExtra int) {
-	ns := names(5)
-	rs := regexes(maxTok, false)
-	if anchoredExtra > maxTok {
-		have := map[string]bool{}
-		for _, r := range rs {
-			have[r] = true
-		}
-		for _, r := range regexes(anchoredExtra, true) {
-			if !have[r] {
-				rs = append(rs, r)
-			}
-		}
-	}
+// regexesOnNames: every regex of rs as regex and as notRegex on every name of ns, against package regexp.
+func regexesOnNames(part string, rs []string, ns [][]byte) {
 	type bad struct {
 		idx  int
 		kind string
@@ -189,7 +177,7 @@ func partA(maxTok int, anchoredExtra int) {
 					}
 				}
 				if sawT && sawF {
-					cnt.nt("A:" + r)
+					cnt.nt(part + ":" + r)
 				}
 			}
 			cnt.add(local)
@@ -212,9 +200,53 @@ func partA(maxTok int, anchoredExtra int) {
 		}
 		rep.Violation(fmt.Sprintf("matcher %s=%s", b.kind, b.re),
 			fmt.Sprintf("matcher.New(%s).Match(%q) = %v, documented conjunction says %v", f, b.name, b.got, !b.got),
-			map[string]interface{}{"part": "A", "filter": f, "name": b.name})
+			map[string]interface{}{"part": part, "filter": f, "name": b.name})
 	}
-	cnt.sample(map[string]interface{}{"part": "A", "regexes": len(rs), "names": len(ns), "first": rs[:min(8, len(rs))], "last": rs[len(rs)-1]})
+	cnt.sample(map[string]interface{}{"part": part, "regexes": len(rs), "names": len(ns), "first": rs[:min(8, len(rs))], "last": rs[len(rs)-1]})
+
+}
+
+// partA8: names that are not valid UTF-8 (validation level none lets any byte through) and the
+// regex atoms that can meet them: package regexp reads an invalid byte as U+FFFD, so a literal
+// U+FFFD in the regex matches it, and no byte-wise shortcut may disagree.
+func partA8(maxTok int) {
+	saveT := tokens
+	tokens = []string{"a", `\x{FFFD}`, "\uFFFD", ".", "^", "$", "?", "(?i)"}
+	rs := regexes(maxTok, false)
+	tokens = saveT
+	alpha := [][]byte{{'a'}, {0xff}, []byte("\uFFFD"), {0xc3}}
+	var ns [][]byte
+	var rec func(cur []byte, n int)
+	rec = func(cur []byte, n int) {
+		if n > 0 {
+			ns = append(ns, append([]byte(nil), cur...))
+		}
+		if n == 3 {
+			return
+		}
+		for _, c := range alpha {
+			rec(append(append([]byte(nil), cur...), c...), n+1)
+		}
+	}
+	rec(nil, 0)
+	regexesOnNames("A8", rs, ns)
+}
+
+func partA(maxTok int, anchoredExtra int) {
+	ns := names(5)
+	rs := regexes(maxTok, false)
+	if anchoredExtra > maxTok {
+		have := map[string]bool{}
+		for _, r := range rs {
+			have[r] = true
+		}
+		for _, r := range regexes(anchoredExtra, true) {
+			if !have[r] {
+				rs = append(rs, r)
+			}
+		}
+	}
+	regexesOnNames("A", rs, ns)
 
 	// all presence combinations of the six options, three values each
 	vals := [6][]string{{"", "a", "b."}, {"", "b", "a."}, {"", "a.", "bb"}, {"", "bb", ".a"}, {"", "^a", "b$"}, {"", "^b", `a\.*b`}}
@@ -689,10 +721,12 @@ func main() {
 		maxTok, anch, depth = 6, 7, 6
 	}
 	partA(maxTok, anch)
+	partA8(maxTok - 1)
 	partB()
 	partC(depth)
 	rep.Assume = []string{
 		"regex alphabet " + strings.Join(tokens, " ") + fmt.Sprintf(" up to %d tokens (up to %d for ^-anchored ones), names over {a,b,.} up to 5 bytes", maxTok, anch),
+		fmt.Sprintf("part A8: regexes over {a, \\x{FFFD}, U+FFFD, ., ^, $, ?, (?i)} up to %d tokens x names of 1-3 elements of {a, 0xFF, U+FFFD, 0xC3} (names that are not valid UTF-8)", maxTok-1),
 		"use sites observed through counters of real destinations pointed at a refusing loopback port (exact barrier: Destination.Flush) and through aggregator output with an injected clock",
 	}
 	rep.Finish(map[string]interface{}{
